@@ -4,6 +4,7 @@
 -/
 import Sq.Machine
 import SqLemmas.MachineLemmas
+import SqLemmas.LogLemmas
 namespace SqProps.C01
 open Sq
 
@@ -192,5 +193,36 @@ theorem limit_is_fatal_without_try (c : Cfg) (op : Op) (vmi : Nat) (vm : VM) (N 
   show run (c.k.length + 1) (step c) = _
   rw [h1]
   exact hr
+
+/-- the host-visible log only grows, along any run (newest event first) -/
+theorem log_only_grows (n : Nat) (c : Cfg) : ∃ new, (run n c).w.log = new ++ c.w.log := run_log n c
+
+/-- **the effects of an aborted run are a prefix of those of every longer-budget run** (hosts that propagate
+    errors).  Two runs from the same start whose budgets differ, `c'` having at least the budgets of `c`.
+    Suppose the smaller-budget run first reaches its limit at step `n` with no catching host frame pending.  Then
+    * it ends, `|k| + 2` steps later, with the ops-limit error, its heap and log being those of step `n`;
+    * up to step `n` the larger-budget run was in lock-step (same control, heap, scopes, counters, log);
+    * at every later moment the larger-budget run's log is the aborted run's final log plus newer events. -/
+theorem aborted_prefix (n : Nat) (c c' : Cfg) (hs : SameCore c c') (hle : BudgetsLe c.budgets c'.budgets)
+    (hvalid : ∀ i, i < n → Valid (run i c)) (hno : ∀ i, i < n → ¬ HitsLimit (run i c))
+    (op : Op) (vmi : Nat) (vm : VM) (N : Nat)
+    (hctl : (run n c).ctl = .ev op vmi) (hvm : (run n c).w.vm? vmi = some vm)
+    (hb : (run n c).budgets[vmi]? = some N) (hlim : vm.ops + 1 ≥ N) (hnt : noTry (run n c).k) :
+    ∃ wf, run (n + ((run n c).k.length + 2)) c =
+            { ctl := .failed (.opsLimit N), k := [], w := wf, budgets := (run n c).budgets } ∧
+          wf.heap = (run n c).w.heap ∧ wf.log = (run n c).w.log ∧
+          SameCore (run n c) (run n c') ∧
+          ∀ m, ∃ newer, (run (n + m) c').w.log = newer ++ wf.log := by
+  obtain ⟨wf, hr, hl, hh⟩ := limit_is_fatal_without_try (run n c) op vmi vm N hctl hvm hb hlim hnt
+  have hsame := budget_mono n c c' hs hle hvalid hno
+  refine ⟨wf, by rw [run_add]; exact hr, hh, hl, hsame, ?_⟩
+  intro m
+  obtain ⟨newer, hn⟩ := run_log m (run n c')
+  refine ⟨newer, ?_⟩
+  rw [run_add, hn, hl]
+  have : (run n c').w = (run n c).w := by
+    have := congrArg Core.w hsame
+    exact this.symm
+  rw [this]
 
 end SqProps.C01
